@@ -5,6 +5,7 @@ import (
 	"errors"
 	"math/rand"
 	"strings"
+	"sync"
 	"time"
 
 	"github.com/dgryski/go-wyhash"
@@ -98,7 +99,10 @@ type RedisPubsubPeers struct {
 	// since the pubsub subscription is still active.
 	Done chan struct{}
 
-	peers     *generics.MapWithTTL[string, string]
+	peers *generics.MapWithTTL[string, string]
+	// mut protects hash and callbacks: listen runs in one goroutine per pubsub
+	// message, and callbacks are registered while messages may already arrive.
+	mut       sync.Mutex
 	hash      uint64
 	callbacks []func()
 	sub       pubsub.Subscription
@@ -108,6 +112,7 @@ type RedisPubsubPeers struct {
 // checkHash checks the hash of the current list of peers and calls any registered callbacks
 // in a separate goroutine if the hash has changed.
 func (p *RedisPubsubPeers) checkHash() {
+	p.mut.Lock()
 	peers := p.peers.SortedKeys()
 	newhash := hashList(peers)
 	if newhash != p.hash {
@@ -116,8 +121,16 @@ func (p *RedisPubsubPeers) checkHash() {
 			go cb()
 		}
 	}
+	p.mut.Unlock()
 	p.Metrics.Gauge("num_peers", float64(len(peers)))
-	p.Metrics.Gauge("peer_hash", float64(p.hash))
+	p.Metrics.Gauge("peer_hash", float64(newhash))
+}
+
+// currentHash returns the hash of the peer list as of the last checkHash.
+func (p *RedisPubsubPeers) currentHash() uint64 {
+	p.mut.Lock()
+	defer p.mut.Unlock()
+	return p.hash
 }
 
 func (p *RedisPubsubPeers) listen(ctx context.Context, msg string) {
@@ -212,7 +225,7 @@ func (p *RedisPubsubPeers) Ready() error {
 				p.Logger.Debug().WithFields(map[string]any{
 					"ids":       p.peers.SortedKeys(),
 					"peers":     p.peers.SortedValues(),
-					"hash":      p.hash,
+					"hash":      p.currentHash(),
 					"num_peers": p.peers.Length(),
 					"self":      myaddr,
 				}).Logf("peer report")
@@ -262,6 +275,8 @@ func (p *RedisPubsubPeers) GetInstanceID() (string, error) {
 }
 
 func (p *RedisPubsubPeers) RegisterUpdatedPeersCallback(callback func()) {
+	p.mut.Lock()
+	defer p.mut.Unlock()
 	p.callbacks = append(p.callbacks, callback)
 }
 
